@@ -5,6 +5,7 @@ go 1.21
 require (
 	github.com/anishathalye/porcupine v1.3.0
 	github.com/bartossh/Computantis/src v0.0.0
+	google.golang.org/grpc v1.58.3
 	google.golang.org/protobuf v1.33.0
 )
 
@@ -74,7 +75,6 @@ require (
 	golang.org/x/text v0.14.0 // indirect
 	google.golang.org/appengine v1.6.8 // indirect
 	google.golang.org/genproto/googleapis/rpc v0.0.0-20230711160842-782d3b101e98 // indirect
-	google.golang.org/grpc v1.58.3 // indirect
 	gopkg.in/yaml.v2 v2.4.0 // indirect
 	gopkg.in/yaml.v3 v3.0.1 // indirect
 	gotest.tools/v3 v3.5.0 // indirect
